@@ -418,7 +418,13 @@ func (g *rowGen) scalar(v reflect.Value, tag, path string, row int) {
 			v.SetString(gen.Pick(r, []string{"RED", "GREEN", "BLUE", "A", ""}))
 			return
 		}
-		v.SetString(string(g.genBytes(tag, path, row)))
+		sv := string(g.genBytes(tag, path, row))
+		if sv == "" && row%2 == 1 {
+			// an empty string that is a slice of a longer one: length zero, data pointer not nil
+			base := fmt.Sprintf("row%d", row)
+			sv = base[len(base):]
+		}
+		v.SetString(sv)
 	default:
 		panic("values: unsupported kind " + v.Kind().String())
 	}
